@@ -50,7 +50,7 @@ SHRINK_LISTS = ("ops",)
 
 
 def budget(tier):
-    return 6000 if tier == "quick" else 100_000
+    return 6000 if tier == "quick" else 400_000
 
 
 def wall(tier):
